@@ -45,6 +45,10 @@ typedef struct keyset keyset_t;
 keyset_t *keyset_new(IMB_MGR *m, int keyid); /* keyid selects raw key bytes (seed-derived; 1000+: structured) */
 void keyset_free(keyset_t *);
 const uint8_t *keyset_raw(const keyset_t *); /* 64 raw key bytes */
+/* C13: overwrite EVERY key object of the set (raw key, all expanded/derived schedules, sub-keys, ipad/opad, GCM
+ * tables) with recognisable words: little-endian (index, m0, m1, m2) - the library only consumes these objects,
+ * so any byte pattern is a valid "key schedule" for the purpose of residue scanning */
+void keyset_pattern(keyset_t *, uint32_t magic24);
 
 typedef struct {
         int alg;
